@@ -114,6 +114,12 @@ func (p *FunctionBuilder) CreateFunction(m *bmodel.MethodEntry) (*gmodel.Functio
 		return nil, err
 	}
 
+	if !m.RetError() {
+		if lhs, found := findErrorAssignment(assignments); found {
+			return nil, logger.Errorf("%v: the source of %v returns an error but the method has no error result", p.fset.Position(m.Method.Pos()), lhs)
+		}
+	}
+
 	preProcess, err := p.buildManipulator(m.Opts.PreProcess, src, dst, additionalArgs, m.RetError())
 	if err != nil {
 		return nil, err
@@ -138,6 +144,24 @@ func (p *FunctionBuilder) CreateFunction(m *bmodel.MethodEntry) (*gmodel.Functio
 	}
 
 	return fn, nil
+}
+
+// findErrorAssignment returns the left-hand side of the first assignment
+// whose right-hand side also yields an error value.
+func findErrorAssignment(assignments []gmodel.Assignment) (string, bool) {
+	for _, a := range assignments {
+		switch v := a.(type) {
+		case gmodel.SimpleField:
+			if v.Error {
+				return v.LHS, true
+			}
+		case gmodel.NestStruct:
+			if lhs, found := findErrorAssignment(v.Contents); found {
+				return lhs, true
+			}
+		}
+	}
+	return "", false
 }
 
 // createVar creates a gmodel.Var from a types.Var.
